@@ -135,12 +135,15 @@ ATTR_CLASSES = [
 # through a second name; the items of that list are elements of which only the attributes listed are read (`l[i].tagName`:
 # `Expr.elemAttr`, a parameter of the interpreter): (file, lean name of the list, class, methods to dump, attributes of items,
 # library exception classes the methods raise with the base class they must have, functions of other dumped modules they call:
-# name -> (module file, lean list it is dumped in))
+# name -> (module file, lean list it is dumped in), the base class whose methods may be called as `return Base.m(self, …)`
+# (`Stmt.retBase`, a parameter of the interpreter) with the sibling module it must be imported from, or None)
 PARSER_CLASSES = [
-    ('Parser.py', 'parser', 'AdvancedHTMLParser', ['handle_endtag'], ('tagName',), {}, {}),
-    ('Validator.py', 'validator', 'ValidatingAdvancedHTMLParser', ['handle_endtag'], ('tagName',),
+    ('Parser.py', 'parser', 'AdvancedHTMLParser', ['handle_endtag'], ('tagName',), {}, {}, None),
+    ('Validator.py', 'validator', 'ValidatingAdvancedHTMLParser', ['handle_endtag', 'handle_starttag'], ('tagName',),
      {('exceptions', 'InvalidCloseException'): 'HTMLValidationException',
-      ('exceptions', 'MissedCloseException'): 'HTMLValidationException'}, {}),
+      ('exceptions', 'MissedCloseException'): 'HTMLValidationException',
+      ('exceptions', 'InvalidAttributeNameException'): 'HTMLValidationException'},
+     {'isValidAttributeName': ('Tags.py', 'tags')}, ('AdvancedHTMLParser', 'Parser.py')),
 ]
 # special methods a PARSER_CLASSES class must not define (`self.f` is then the plain attribute)
 PARSER_CLASS_FORBIDDEN = ('__getattr__', '__getattribute__', '__setattr__')
@@ -391,6 +394,8 @@ class _FunTranslator(object):
                     # object.__getattribute__(self, n) / object.__setattr__(self, n, v)
                     if isinstance(n, ast.Call) and self.object_call(n) is not None:
                         ok_uses.add(id(n.args[0]))
+                if pcls is not None and isinstance(n, ast.Return) and self.base_meth_call(n.value, pcls) is not None:
+                    ok_uses.add(id(n.value.args[0]))
                 if cls is not None:
                     # the list the object IS: `list.m(self, …)` as a statement, `self[:]`, `list(self)`; and `return self`
                     if isinstance(n, ast.Expr) and self.base_call(n.value) is not None:
@@ -500,6 +505,19 @@ class _FunTranslator(object):
         if isinstance(f, ast.Attribute) and isinstance(f.value, ast.Name) and f.value.id == 'list' \
                 and 'list' not in self.locals and 'list' not in self.mod.rebound and v.args \
                 and isinstance(v.args[0], ast.Name) and v.args[0].id == self.self_name and not v.keywords \
+                and not any(isinstance(a, ast.Starred) for a in v.args):
+            return f.attr, v.args[1:]
+        return None
+
+    def base_meth_call(self, v, pcls=None):
+        """`Base.m(self, args…)` for the base class of a PARSER_CLASSES class -> (m, args); anything else -> None"""
+        pcls = pcls or self.pcls
+        if pcls is None or pcls.get('base') is None or not isinstance(v, ast.Call):
+            return None
+        f = v.func
+        if isinstance(f, ast.Attribute) and isinstance(f.value, ast.Name) and f.value.id == pcls['base'] \
+                and f.value.id not in self.locals and v.args and isinstance(v.args[0], ast.Name) \
+                and v.args[0].id == self.params[0] and not v.keywords \
                 and not any(isinstance(a, ast.Starred) for a in v.args):
             return f.attr, v.args[1:]
         return None
@@ -833,6 +851,18 @@ class _FunTranslator(object):
             lines += self.block(st.body, ind + 2)
             lines.append('%s]' % pad)
             return comment, lines
+        if self.pcls is not None and isinstance(st, ast.For) and isinstance(st.target, ast.Tuple):
+            # `for (a, b) in x:` over a local variable holding a list of 2-tuples
+            t = st.target
+            if st.orelse or len(t.elts) != 2 or not all(isinstance(e, ast.Name) for e in t.elts) \
+                    or t.elts[0].id == t.elts[1].id or not isinstance(st.iter, ast.Name) or st.iter.id not in self.locals \
+                    or st.iter.id in self.aliases or st.iter.id == self.self_name \
+                    or any(e.id in self.aliases or e.id == self.self_name or e.id == st.iter.id for e in t.elts):
+                self.fail(st, 'for with a tuple target other than `for (a, b) in <local variable>`')
+            lines = ['%s.forPair %s %s %s [' % (pad, lean_str(t.elts[0].id), lean_str(t.elts[1].id), self.expr(st.iter))]
+            lines += self.block(st.body, ind + 2)
+            lines.append('%s]' % pad)
+            return comment, lines
         if isinstance(st, ast.For):
             if st.orelse or not isinstance(st.target, ast.Name):
                 self.fail(st, 'for/else, loop target')
@@ -861,6 +891,10 @@ class _FunTranslator(object):
                 self.fail(st, 'augmented assignment')
             x = lean_str(st.target.id)
             return comment, ['%s.assign %s (.binop %s (.var %s) %s)' % (pad, x, op, x, self.expr(st.value))]
+        if isinstance(st, ast.Return) and self.base_meth_call(st.value) is not None:
+            m, rest = self.base_meth_call(st.value)
+            return comment, ['%s.retBase %s %s [%s]' % (pad, lean_str(self.self_name), lean_str(m),
+                                                       ', '.join(self.expr(a) for a in rest))]
         if isinstance(st, ast.Return):
             v = '(.const .none)' if st.value is None else self.expr(st.value)
             return comment, ['%s.ret %s' % (pad, v)]
@@ -1118,7 +1152,7 @@ def generate_code(repo):
         parts.append('/-- %s: the dumped methods of class %s -/' % (rel, cls_name))
         parts.append('def %s : List Fun :=\n  [%s]' % (lean_name, ',\n   '.join(names)))
         parts.append('')
-    for rel, lean_name, cls_name, methods, elem_attrs, excs, imports in PARSER_CLASSES:
+    for rel, lean_name, cls_name, methods, elem_attrs, excs, imports, base in PARSER_CLASSES:
         mod = _Module(repo, rel)
         cls = mod.classes.get(cls_name)
         if cls is None:
@@ -1149,7 +1183,11 @@ def generate_code(repo):
                     r == frel and w is not None and fname in w for (r, _l, w) in MODULES):
                 mod.fail(cls, '%s is not imported once from %s (a dumped function)' % (fname, frel))
             earlier.append(fname)
-        info = {'name': cls_name, 'elem_attrs': tuple(elem_attrs), 'exc': set(n for (_m, n) in excs)}
+        if base is not None:
+            if [ast.unparse(b) for b in cls.bases] != [base[0]] or mod.imported_funcs.get(base[0]) != base[1]:
+                mod.fail(cls, 'class %s is not derived from %s alone, imported once from %s' % (cls_name, base[0], base[1]))
+        info = {'name': cls_name, 'elem_attrs': tuple(elem_attrs), 'exc': set(n for (_m, n) in excs),
+                'base': base[0] if base is not None else None}
         names = []
         for m in methods:
             if len(defs.get(m, [])) != 1 or defs[m][0] not in cls.body or m in assigned:
